@@ -1,10 +1,86 @@
 import TempestVerif.Drv.Util
-/- line-protocol handlers of property C14 (stub: no commands yet) -/
+import TempestVerif.Model.Modes
+import TempestVerif.Model.Cadence
+/- line-protocol handlers of property C14
+
+   modes.from labels=<nats> [tapes=<nats>;<nats>;…]
+       → `K=<n> modes=<idx list>|<idx list>|…`  (one index list per mode, in mode order; `-` = empty)
+         and, when tapes are given (one tape of LOCAL indices per mode), ` fed=<ids>|<ids>|…` = what each fit received
+         (`fed=error` if the number of tapes differs from K or a draw is out of range)
+   modes.lookup labels=<nats> assign=<nat> near=<idx> [stored=none] [old=1]
+       the path as it is now: `ModeStatistics.mode_index` (near = the nearest-mean argmin the caller observed/computed; only
+       consulted for a label without a mode), then the kernel's `means[index]`
+       → `index=<i> label=<relabelled assignment> mode=<idx list>`   or   `IndexError` (index has no mode)
+       stored=none: the `self.labels is None` path (index = assignment, label = assignment)
+       old=1: the raw-index lookup used before commit 88d298f  → `index=<a> label=<label of that mode> mode=…` or `IndexError`
+   cad.trace ce=<k> sched=<bits> resume=<idx or -> iter0=<n> [clustering=0|1] [old=1]
+       → `<events> <verdict> fitted=<0|1> iter=<n>`   events: N = fresh clusterer object, F = fit, P = predict;
+         verdict ok | predictBeforeFit.   sched: 1 = an iteration with β = 0, 0 = β > 0; resume = index of the schedule
+         entry BEFORE which a fresh Trainer/Resampler/clusterer is constructed.  old=1: the model without the
+         `not self._clusterer_fitted` disjunct.
+-/
 namespace Drv.C14
-open Drv
+open Drv Model.Modes Model.Cadence
+
+def showModes (ms : List (List Nat)) : String :=
+  if ms.isEmpty then "none" else "|".intercalate (ms.map (showList toString))
+
+def parseTapes? (s : String) : Option (List (List Nat)) :=
+  if s == "none" then some [] else (s.splitOn ";").mapM parseNatList?
+
+def modesFrom (args : List (String × String)) : String :=
+  match (getArg args "labels").bind parseNatList? with
+  | some labels =>
+    let ms := fromParticles labels
+    let base := s!"K={numModes labels} modes={showModes ms}"
+    match getArg args "tapes" with
+    | none => base
+    | some t => match parseTapes? t with
+      | none => "bad-op"
+      | some tapes => match fitInputs ms tapes with
+        | some fed => s!"{base} fed={showModes fed}"
+        | none => s!"{base} fed=error"
+  | none => "bad-op"
+
+def modesLookup (args : List (String × String)) : String :=
+  match (getArg args "labels").bind parseNatList?, (getArg args "assign").bind String.toNat?,
+        (getArg args "near").bind String.toNat? with
+  | some labels, some a, some near =>
+    let old := (getArg args "old") == some "1"
+    let noStored := (getArg args "stored") == some "none"
+    let i := if old then a else modeIndexOpt (if noStored then none else some (labelsOf labels)) near a
+    match modeOfRaw (fromParticles labels) i, (if noStored then some a else (labelsOf labels)[i]?) with
+    | some m, some l => s!"index={i} label={l} mode={showList toString m}"
+    | _, _ => "IndexError"
+  | _, _, _ => "bad-op"
+
+def parseBits? (s : String) : Option (List Bool) :=
+  if s == "-" then some [] else
+  s.toList.mapM fun c => if c == '1' then some true else if c == '0' then some false else none
+
+def showEvent : Event → String
+  | .fresh => "N" | .fit => "F" | .predict => "P"
+
+def parseResume? (s : String) : Option (Option Nat) :=
+  if s == "-" then some none else s.toNat?.map some
+
+def cadTrace (args : List (String × String)) : String :=
+  match (getArg args "ce").bind String.toNat?, (getArg args "sched").bind parseBits?,
+        (getArg args "resume").bind parseResume?, (getArg args "iter0").bind String.toNat? with
+  | some ce, some sched, some r, some iter0 =>
+    if ce = 0 then "bad-op" else   -- `iter % 0` raises ZeroDivisionError in Python; outside the statement
+    let clustering := (getArg args "clustering") != some "0"
+    let old := (getArg args "old") == some "1"
+    let s := run { clusterEvery := ce, clustering := clustering, useFlag := !old } iter0 (withResume sched r)
+    let v := match s.verdict with | .ok => "ok" | .predictBeforeFit => "predictBeforeFit"
+    s!"{String.join (s.trace.map showEvent)} {v} fitted={showBool s.clFitted} iter={s.iter}"
+  | _, _, _, _ => "bad-op"
 
 def handle (cmd : String) (args : List (String × String)) : Option String :=
   match cmd with
+  | "modes.from" => some (modesFrom args)
+  | "modes.lookup" => some (modesLookup args)
+  | "cad.trace" => some (cadTrace args)
   | _ => none
 
 end Drv.C14
